@@ -113,19 +113,26 @@ fn normalise(s: &str, scratch: &str) -> String {
     out
 }
 
-/// `path:line` after "panicked at ", directories above the crate stripped
+/// Stable name of a panic site: `crate/src/file.rs:<what>` where <what> is the error type named in
+/// the panic message (e.g. ParseIntError) or its first words; the line number is kept out of the
+/// key (it moves with unrelated edits) and stays in the stderr tail of the violation record.
 fn panic_site(stderr: &str) -> Option<String> {
     let p = stderr.find("panicked at ")?;
-    let rest = stderr[p + "panicked at ".len()..].lines().next()?;
-    let mut it = rest.split(':');
-    let path = it.next()?.trim();
-    let line = it.next().unwrap_or("?").trim();
+    let mut lines = stderr[p + "panicked at ".len()..].lines();
+    let rest = lines.next()?;
+    let msg = lines.next().unwrap_or("");
+    let path = rest.split(':').next()?.trim();
     let comps: Vec<&str> = path.split('/').filter(|c| !c.is_empty()).collect();
     let short = match comps.iter().rposition(|c| *c == "src") {
         Some(i) if i >= 1 => comps[i - 1..].join("/"),
         _ => comps.last().copied().unwrap_or("?").to_string(),
     };
-    Some(format!("{}:{}", short, line))
+    let words: Vec<&str> = msg.split(|c: char| !c.is_ascii_alphanumeric()).filter(|w| !w.is_empty()).collect();
+    let what = match words.iter().find(|w| w.len() > 5 && w.ends_with("Error") && w.chars().next().is_some_and(|c| c.is_ascii_uppercase())) {
+        Some(w) => w.to_string(),
+        None => words.iter().take(4).copied().collect::<Vec<_>>().join("-"),
+    };
+    Some(format!("{}:{}", short, if what.is_empty() { "panic".to_string() } else { what }))
 }
 
 fn run_fontc(src: &Path, extra: &[String], out: &Path) -> Run {
@@ -1458,7 +1465,7 @@ fn main() {
 
     // ---- 3. generate every case from the one Rng
     let mut rng = Rng::new(seed);
-    let hang_budget = if n <= 1000 { 30 } else { 300 };
+    let hang_budget = if n <= 1000 { 24 } else { 300 };
     let mut cases: Vec<Case> = corpus().into_iter().map(Case::Graph).collect();
     for (len, flags) in [(300, FlagV::Default), (1500, FlagV::Default), (1500, FlagV::Flatten)] {
         cases.push(Case::Deep(DeepCase { len, flags }));
